@@ -229,6 +229,17 @@ impl Engine {
         info!("init");
         self.runtime.init(self);
         package::init(self);
+
+        // take up the processes that were open when the engine was stopped:
+        // without them in the cache their timeouts never fire
+        let rt = self.runtime.clone();
+        rt.cache()
+            .restore(&rt, |proc| {
+                if proc.state().is_none() {
+                    proc.start();
+                }
+            })
+            .unwrap_or_else(|err| tracing::error!("engine.init restore={}", err));
     }
 
     pub(crate) fn new_with_config(config: &Config) -> Self {
